@@ -13,8 +13,8 @@ QUALS = [0, 10, 20, 30, 7, 13]
 # ------------------------------------------------------------------ numeric tables
 # The C++ computes p_q = pow(10, -q/10.0L) (p_0 = 0.9999) and the recombination probability
 # pow(10, -recombcost/10) in long double.  `pow` is external to the model: the tables are supplied as rationals
-# within 1e-15 (relative) of those values -- the exact decimal when the exponent is an integer, otherwise the
-# simplest continued-fraction approximant of the double with denominator < 10^10.  (Exact binary expansions of the
+# within 1e-15 (relative) of those values -- the exact decimal when the exponent is an integer, otherwise a
+# continued-fraction approximant of the double (smallest denominator bound 10^10, 10^12, ... reaching 1e-15).  (Exact binary expansions of the
 # doubles would make the exact evaluation in Coq ~100x slower without changing any verdict: the comparison
 # tolerance is 1e-9.)
 def _pow10(e10):
@@ -22,9 +22,12 @@ def _pow10(e10):
     if e10 % 10 == 0:
         return Fraction(1, 10 ** (e10 // 10))
     x = 10.0 ** (-e10 / 10.0)
-    fr = Fraction(x).limit_denominator(10 ** 10)
-    assert abs(fr - Fraction(x)) <= Fraction(x) / 10 ** 15
-    return fr
+    d = 10 ** 10
+    while True:
+        fr = Fraction(x).limit_denominator(d)
+        if abs(fr - Fraction(x)) <= Fraction(x) / 10 ** 15:
+            return fr
+        d *= 100
 
 
 def phred_prob(q):
